@@ -119,6 +119,33 @@ def clamp_summary(ctx, prog, fn: FunctionInfo, lo: str, hi: str, what: str) -> b
     return ok
 
 
+def _convex_pair(e):
+    """(A, B) when e is a*A + b*B with literal a, b > 0, a + b = 1, or (A + B) / 2, or A + t*(B - A) with literal 0 <= t <= 1"""
+    def scaled(x):
+        if isinstance(x, ast.BinOp) and isinstance(x.op, ast.Mult):
+            for c_, a_ in ((x.left, x.right), (x.right, x.left)):
+                k_ = const_num(c_)
+                if k_ is not None and not isinstance(a_, ast.Constant):
+                    return float(k_), a_
+        if isinstance(x, ast.BinOp) and isinstance(x.op, ast.Div) and const_num(x.right):
+            return 1.0 / float(const_num(x.right)), x.left
+        return None
+
+    if isinstance(e, ast.BinOp) and isinstance(e.op, ast.Add):
+        l, r = scaled(e.left), scaled(e.right)
+        if l and r and l[0] > 0 and r[0] > 0 and abs(l[0] + r[0] - 1.0) < 1e-15:
+            return l[1], r[1]
+        # A + t * (B - A)
+        for a_, t_ in ((e.left, e.right), (e.right, e.left)):
+            st_ = scaled(t_)
+            if st_ and 0 <= st_[0] <= 1 and isinstance(st_[1], ast.BinOp) and isinstance(st_[1].op, ast.Sub) and canon(st_[1].right) == canon(a_):
+                return a_, st_[1].left
+    sc = scaled(e)
+    if sc and abs(sc[0] - 0.5) < 1e-15 and isinstance(sc[1], ast.BinOp) and isinstance(sc[1].op, ast.Add):
+        return sc[1].left, sc[1].right
+    return None
+
+
 class BoundProv(BasePolicy):
     """P:<param> through copies, float casts, broadcasting against ones; an
     infinite default (no bound) is vacuous."""
@@ -449,6 +476,11 @@ def check(ctx):
                 if isinstance(v, ast.Call) and call_name(v) == "np.random.uniform":
                     lo, hi = kw(v, "low") or (v.args[0] if v.args else None), kw(v, "high") or (v.args[1] if len(v.args) > 1 else None)
                     good = good and val_origin(m, lo) == 3 and val_origin(m, hi) == 4 and val_ok.get(3, False) and val_ok.get(4, False)
+                elif _convex_pair(v) is not None:
+                    # a convex combination of the two validated plausible bounds (the centre of the plausible box) lies
+                    # between them coordinate by coordinate, hence inside the hard box
+                    pa_, pb_ = _convex_pair(v)
+                    good = good and {val_origin(m, pa_), val_origin(m, pb_)} == {3, 4} and val_ok.get(3, False) and val_ok.get(4, False)
                 else:
                     good = False
             if not is_x0_:
